@@ -2,6 +2,7 @@ import PetgraphModel.Common
 import PetgraphModel.GraphProto
 import PetgraphModel.Oracle.Reach
 import PetgraphModel.Model.Traversal
+import PetgraphModel.Model.C08VisitMap
 /-
 C08 driver.  Requests (after a `graph …` line):
 
@@ -13,6 +14,28 @@ C08 driver.  Requests (after a `graph …` line):
 Answers: emitted node ids, `x` marks a `None`; events as D<n>@<t> T<u>-<v> B<u>-<v> C<u>-<v> F<n>@<t>,
 followed by `|cont`, `|break` or `|panic`.
 
+Wave 6 (corners; `harness/src/c08/corners.rs`): `walk`, `bfs` and `topo` requests may carry a trailing
+`api=<variant>` word — it names the public API route by which the harness obtained the answer (`X::new`,
+`Default` + `reset`, a walker around a visit map made for another graph + `reset`, `clone` / `clone_from`,
+`from_parts`, `Walker::walk_next`, `WalkerIter`, …); the words before it are the CANONICAL request whose
+documented meaning is the same, and only they are interpreted.  New requests:
+
+  dfsvx <kind> <starts> <script>   depth_first_search with the visitor return type `kind`: unit `()`, ctl
+                                   `Control<u32>`, resctl `Result<Control<u32>, u32>`, resunit
+                                   `Result<(), u32>`; script over c/p/b/e (`e` = `Err(k)`, breaks); answer
+                                   `<events>|cont`, `|break@<k>`, `|err@<k>`, `|panic` where the payload `k`
+                                   is the index of the event at which the visitor produced the value
+  vmap <ops>                       `VisitMap` / `Visitable::reset_map`: v<a> visit, i<a> is_visited, u<a>
+                                   unvisit, r reset_map; answer 1/0 per op (`r` for reset)
+  law <name> …                     a law checked by the harness against the implementation itself; the
+                                   answer must be `ok`
+
+Open finding D6 (`MatrixGraph::edges_directed(_, Incoming)` reports `(node, predecessor)`) reaches C08 through one
+adaptor stack only, `&EdgeFiltered<&NodeFiltered<&MatrixGraph>>` (`NodeFiltered::edges_directed` tests
+`edge.source()`): its `graph` line and its `topo` answers are classified `KNOWN D6` narrowly (`repairD6`; the case
+line's `enc=` word must name that stack, the outgoing lists must be right, the incoming lists must become right once
+entries outside the view are dropped, and a Topo answer must equal the mirror model run on the view as presented).
+
 Per case the `graph` line is checked for the side conditions of the theorems (`viewOkB`, `wfB`,
 `closedB`); per request the start nodes must be nodes of the view (`nodesB`).
 -/
@@ -22,6 +45,12 @@ open PetgraphModel PetgraphModel.Trav PetgraphModel.Oracle
 structure DState where
   v : View := default
   ok : Bool := false
+  /-- the `enc=` word of the case line (which storage type / adaptor the view is) -/
+  enc : String := ""
+  /-- open finding D6 applies to this case: `vLeak` is the view as the implementation presents it (incoming
+  lists with filtered-out predecessors), `v` the view repaired to the abstract graph -/
+  d6 : Bool := false
+  vLeak : View := default
 
 def bigFuel (v : View) : Nat := 4 * v.g.edges.length + 2 * v.g.nodes.length + 16
 
@@ -455,28 +484,79 @@ def initsOkB (l : List Nat) : Bool := nodupB l || decide (l.length ≤ 14)
 def outOfRange (what : String) (l : List Nat) : String :=
   s!"SPECFAIL generator left the proved range: {what} {showNats l} not all among the nodes of the view"
 
+/-! ### wave 6: open finding D6 seen through an adaptor stack -/
+
+/-- the one encoding whose incoming lists D6 corrupts -/
+def d6Enc : String := "matrix-directed+edgefiltered-of-nodefiltered"
+
+/-- drop from the incoming lists every entry that is not a node of the view -/
+def repairD6 (v : View) : View :=
+  { v with inn := v.inn.map fun (a, row) => (a, row.filter fun p => v.g.nodes.contains p.1) }
+
+/-! ### wave 6: visitor return types, `VisitMap` -/
+
+/-- `e` (`Err(_)`) breaks like `b` (`ControlFlow for Result`: "upon encountering an `E` it will break") -/
+def parseCtlX (s : String) : List Ctl :=
+  s.toList.filterMap fun c =>
+    if c == 'c' then some .cont else if c == 'p' then some .prune
+    else if c == 'b' || c == 'e' then some .brk else none
+
+/-- the script is expressible in the visitor's return type -/
+def kindOkB (kind script : String) : Bool :=
+  match kind with
+  | "unit" => script.toList.all (· == 'c')
+  | "resunit" => script.toList.all fun c => c == 'c' || c == 'e'
+  | "ctl" => script.toList.all fun c => c == 'c' || c == 'p' || c == 'b'
+  | "resctl" => script.toList.all fun c => c == 'c' || c == 'p' || c == 'b' || c == 'e'
+  | _ => false
+
+/-- what `depth_first_search` must return when the visitor broke at event `k`: the visitor's own value
+(`Break(k)` or `Err(k)`) -/
+def breakTok (script : String) (k : Nat) : String :=
+  if script.toList.getD k 'c' == 'e' then s!"err@{k}" else s!"break@{k}"
+
+/-- normalise the result part of a `dfsvx` answer to what `judgeEvents` speaks about; `none` = the value
+returned is not the one the visitor produced at the last event -/
+def normResult (script : String) (ctl : List Ctl) (nevs : Nat) (ri : String) : Option String :=
+  if ri == "cont" || ri == "panic" then some ri
+  else if nevs > 0 && ri == breakTok script (nevs - 1) && ctlAt ctl (nevs - 1) == .brk then some "break"
+  else none
+
+def vmapAnswer (ops : List VMap.Op) : String :=
+  joinToks ((VMap.run [] ops).map VMap.showAns)
+
 def parseEvs (s : String) : Option (List Ev) :=
   if s == "-" then some [] else (s.splitOn ",").mapM parseEv
 
 def step (d : DState) (req : List String) (impl : String) : DState × String :=
   match req with
   | ["case", k] => ({}, s!"case {k}")
-  | "case" :: k :: _ => ({}, s!"case {k}")
+  | "case" :: k :: rest => ({ enc := (field? rest "enc").getD "" }, s!"case {k}")
+  | "law" :: _ =>
+    if impl == "ok" then (d, "ok") else (d, s!"SPECFAIL law does not hold: {String.intercalate " " req}: {impl}")
   | "graph" :: _ =>
     match parseView req with
     | none => (d, "SPECFAIL unparsable graph line")
     | some v =>
       if !viewOkB v then
-        ({ v := v, ok := false }, "SPECFAIL neighbour iteration of this encoding does not describe the abstract graph")
+        -- open finding D6, classified narrowly: only the one adaptor stack that reads `edges_directed(_, Incoming)`
+        -- of a directed MatrixGraph through `NodeFiltered` (which tests `edge.source()` — D6 makes that the node
+        -- itself), only the incoming lists may be wrong, and only by listing nodes outside the view
+        let vR := repairD6 v
+        if d.enc == d6Enc && viewOkB vR && wfB vR.g && closedB vR && v.out == vR.out then
+          ({ d with v := vR, vLeak := v, ok := true, d6 := true },
+           "KNOWN D6 &EdgeFiltered<&NodeFiltered<&MatrixGraph>>::neighbors_directed(_, Incoming) lists filtered-out predecessors: NodeFiltered::edges_directed(_, Incoming) tests edge.source(), which a directed MatrixGraph reports as the node itself")
+        else
+        ({ d with v := v, ok := false }, "SPECFAIL neighbour iteration of this encoding does not describe the abstract graph")
       else if !wfB v.g then
-        ({ v := v, ok := false }, "SPECFAIL side condition wellFormed does not hold: node ids repeat or an edge joins a non-node")
+        ({ d with v := v, ok := false }, "SPECFAIL side condition wellFormed does not hold: node ids repeat or an edge joins a non-node")
       else if !closedB v then
-        ({ v := v, ok := false }, "SPECFAIL side condition viewClosed does not hold: the view lists neighbours of an id that is not a node")
-      else ({ v := v, ok := true }, "ok")
+        ({ d with v := v, ok := false }, "SPECFAIL side condition viewClosed does not hold: the view lists neighbours of an id that is not a node")
+      else ({ d with v := v, ok := true }, "ok")
   | _ =>
   if !d.ok then (d, "SPECFAIL side condition view does not hold: the graph line of this case is missing or was rejected") else
   match req with
-  | ["walk", kind, script] =>
+  | "walk" :: kind :: script :: _ =>
     let cmds := parseScript script
     if !nodesB d.v (cmdStarts cmds) then (d, outOfRange "move_to targets" (cmdStarts cmds)) else
     if impl == "panic" then (d, "SPECFAIL walker panicked") else
@@ -487,7 +567,7 @@ def step (d : DState) (req : List String) (impl : String) : DState × String :=
     | "dfs" => (d, verdict (judgeDfs d.v.g cmds toks) (joinToks (runDfs d.v cmds)) impl)
     | "post" => (d, verdict (judgePostScript d.v.g cmds toks) (joinToks (runPost d.v cmds)) impl)
     | _ => (d, "SPECFAIL bad request")
-  | ["bfs", s] =>
+  | "bfs" :: s :: _ =>
     match s.toNat? with
     | none => (d, "SPECFAIL bad request")
     | some s =>
@@ -505,6 +585,17 @@ def step (d : DState) (req : List String) (impl : String) : DState × String :=
     let f := bigFuel d.v
     let m := topoAll d.v f (d.v.g.nodes.length + 2) t0 []
     let spec := if mode == "all" then judgeTopoAll d.v.g (toksNodes impl) else judgeTopoInit d.v.g (toksNodes impl)
+    if d.d6 then
+      -- D6: Topo reads the corrupted incoming lists; the answer is attributed to D6 only if it is exactly what
+      -- the mirror model computes on the view as presented
+      let tL := if mode == "all" then Topo.new d.vLeak else Topo.withInitials d.vLeak inits
+      let mL := topoAll d.vLeak (bigFuel d.vLeak) (d.vLeak.g.nodes.length + 2) tL []
+      if impl == showNats mL then
+        match spec with
+        | some why => (d, s!"KNOWN D6 Topo over the view with filtered-out predecessors in its incoming lists: {why}")
+        | none => (d, "ok")
+      else (d, verdict spec (showNats m) impl)
+    else
     (d, verdict spec (showNats m) impl)
   | ["dfsv", starts, script] =>
     let starts := parseNats starts
@@ -521,6 +612,34 @@ def step (d : DState) (req : List String) (impl : String) : DState × String :=
       | none => (d, s!"SPECFAIL malformed event stream {evi}")
       | some evs => (d, verdict (judgeEvents d.v.g starts script evs ri) m impl)
     | _ => (d, s!"SPECFAIL malformed answer {impl}")
+  | ["dfsvx", kind, starts, scriptS] =>
+    let starts := parseNats starts
+    if !kindOkB kind scriptS then (d, s!"SPECFAIL bad request: script {scriptS} is not expressible with visitor return type {kind}") else
+    let script := parseCtlX scriptS
+    if !nodesB d.v starts then (d, outOfRange "start nodes" starts) else
+    let f := 4 * bigFuel d.v
+    let (s, r) := dfsSearch d.v script f starts {}
+    let rs := match r with
+      | .cont => "cont" | .brk => breakTok scriptS (s.evs.length - 1) | .panicPruneFinish => "panic" | .fuel => "FUEL"
+    let evm := s.evs.reverse.map showEv
+    let m := (if evm.isEmpty then "-" else String.intercalate "," evm) ++ "|" ++ rs
+    match impl.splitOn "|" with
+    | [evi, ri] =>
+      match parseEvs evi with
+      | none => (d, s!"SPECFAIL malformed event stream {evi}")
+      | some evs =>
+        match normResult scriptS script evs.length ri with
+        | none => (d, s!"SPECFAIL depth_first_search returned {ri} after {evs.length} events; the visitor's value at the last event would be {breakTok scriptS (evs.length - 1)} (script {scriptS})")
+        | some res => (d, verdict (judgeEvents d.v.g starts script evs res) m impl)
+    | _ => (d, s!"SPECFAIL malformed answer {impl}")
+  | "vmap" :: opsS :: _ =>
+    match VMap.parseOps opsS with
+    | none => (d, "SPECFAIL bad request")
+    | some ops =>
+      if !nodesB d.v (VMap.opIds ops) then (d, outOfRange "visit map keys" (VMap.opIds ops)) else
+      let m := vmapAnswer ops
+      if impl == m then (d, "ok")
+      else (d, s!"SPECFAIL VisitMap / reset_map: answers {impl}, a set of nodes answers {m}")
   | _ => (d, s!"SPECFAIL bad request {req}")
 
 end PetgraphModel.C08
